@@ -226,8 +226,11 @@ pub fn record(corpus_dir: &str, patterns_file: &str, mode: &str, per_program: us
                 flags.push(d.run(&canon).ok().map(|s| s.into_iter().collect()));
             }
             programs += 1;
-            // very long programs (the generated deep chain): the fixed layouts and one rotating pattern are enough
-            let per = if n > 1200 { per_program.min(5) } else { per_program };
+            // very long programs (the generated 400-level chain serves C04 / C15): two layouts only
+            let per = if n > 1200 { per_program.min(2) } else { per_program };
+            if n > 1200 && vname != "orig" {
+                continue;
+            }
             for i in 0..per {
                 // a few fixed, important layouts first, then the rotating TLC patterns
                 let (pattern, trailing): (Vec<Vec<u8>>, Vec<u8>) = match i {
